@@ -151,7 +151,8 @@ class Builder:
             self.op(op="sub", who="cs", kind="connection", sends={"msg": m, "policy": POL_CONN})
 
     def heal(self):
-        self.op(op="resume")
+        self.op(op="quiesce")
+        self.op(op="resume")      # "once the network behaves again": the console reads again
         self.op(op="quiesce")
         self.op(op="mark", tag="healbegin")
         self.op(op="auto", how="ok")
